@@ -179,6 +179,7 @@ def cmdCacheHist (desired ops impl : String) (ties : Bool) : Result :=
 
 def cmdCacheInv (impl : String) : Result :=
   if impl = "panic" then { model := "-", oracle := "fail:C15:panic-in-thread" }
+  else if impl = "HANG" then { model := "-", oracle := "fail:C15:cache-operation-does-not-return" }
   else
     match parseDump impl with
     | none => { model := "-", oracle := "fail:C15:unparsable-dump" }
